@@ -172,3 +172,114 @@ package commands
 //@     ghost got []*openfgav1.Assertion = got
 //@     before call storage.AssertionsBackend.ReadAssertions args _, _, st, m : assert st == store && m == authorizationModelID
 //@     after call storage.AssertionsBackend.ReadAssertions returning a, e : read = true ; readErr = e ; got = a
+
+// ------------------------------------------------------------------ Expand (C30): the tree mirrors the rewrite
+// each rewrite kind is expanded by its own builder, on the same store / object#relation / model / consistency, and
+// the node returned is the builder's
+//@ func (*ExpandQuery).resolveUserset(q, ctx, store, userset, tk, typesys, consistency) (res, err)
+//@   property C30
+//@   option nosafety
+//@   monitor mirror
+//@     before call (*commands.ExpandQuery).resolveThis args _, _, st, t, ts, c : assert (userset.GetUserset() == nil || typeIs(userset.GetUserset(), "*openfgav1.Userset_This")) && st == store && t == tk && ts == typesys && c == consistency
+//@     before call (*commands.ExpandQuery).resolveComputedUserset args _, _, us, t : assert typeIs(userset.GetUserset(), "*openfgav1.Userset_ComputedUserset") && us == as(userset.GetUserset(), "*openfgav1.Userset_ComputedUserset").ComputedUserset && t == tk
+//@     before call (*commands.ExpandQuery).resolveTupleToUserset args _, _, st, us, t, ts, c : assert typeIs(userset.GetUserset(), "*openfgav1.Userset_TupleToUserset") && us == as(userset.GetUserset(), "*openfgav1.Userset_TupleToUserset").TupleToUserset && st == store && t == tk && ts == typesys && c == consistency
+//@     before call (*commands.ExpandQuery).resolveUnionUserset args _, _, st, us, t, ts, c : assert typeIs(userset.GetUserset(), "*openfgav1.Userset_Union") && us == as(userset.GetUserset(), "*openfgav1.Userset_Union").Union && st == store && t == tk && ts == typesys && c == consistency
+//@     before call (*commands.ExpandQuery).resolveIntersectionUserset args _, _, st, us, t, ts, c : assert typeIs(userset.GetUserset(), "*openfgav1.Userset_Intersection") && us == as(userset.GetUserset(), "*openfgav1.Userset_Intersection").Intersection && st == store && t == tk && ts == typesys && c == consistency
+//@     before call (*commands.ExpandQuery).resolveDifferenceUserset args _, _, st, us, t, ts, c : assert typeIs(userset.GetUserset(), "*openfgav1.Userset_Difference") && us == as(userset.GetUserset(), "*openfgav1.Userset_Difference").Difference && st == store && t == tk && ts == typesys && c == consistency
+
+// union / intersection nodes: named object#relation, children = the expansions of exactly the rewrite's children, in order
+//@ func (*ExpandQuery).resolveUnionUserset(q, ctx, store, usersets, tk, typesys, consistency) (res, err)
+//@   property C30
+//@   option nosafety
+//@   ensures @node err == nil ==> res != nil && res.Name == named && typeIs(res.Value, "*openfgav1.UsersetTree_Node_Union") && as(res.Value, "*openfgav1.UsersetTree_Node_Union").Union != nil && as(res.Value, "*openfgav1.UsersetTree_Node_Union").Union.Nodes == nodes && expanded && expErr == nil
+//@   monitor children
+//@     ghost expanded = false
+//@     ghost nodes []*openfgav1.UsersetTree_Node = nodes
+//@     ghost expErr error = nil
+//@     ghost named string = ""
+//@     before call (*commands.ExpandQuery).resolveUsersets args _, _, st, us, t, ts, c : assert st == store && us == usersets.GetChild() && t == tk && ts == typesys && c == consistency
+//@     after call (*commands.ExpandQuery).resolveUsersets returning n, e : expanded = true ; nodes = n ; expErr = e
+//@     before call commands.toObjectRelation args t : assert t == tk
+//@     after call commands.toObjectRelation returning s : named = s
+
+//@ func (*ExpandQuery).resolveIntersectionUserset(q, ctx, store, usersets, tk, typesys, consistency) (res, err)
+//@   property C30
+//@   option nosafety
+//@   ensures @node err == nil ==> res != nil && res.Name == named && typeIs(res.Value, "*openfgav1.UsersetTree_Node_Intersection") && as(res.Value, "*openfgav1.UsersetTree_Node_Intersection").Intersection != nil && as(res.Value, "*openfgav1.UsersetTree_Node_Intersection").Intersection.Nodes == nodes && expanded && expErr == nil
+//@   monitor children
+//@     ghost expanded = false
+//@     ghost nodes []*openfgav1.UsersetTree_Node = nodes
+//@     ghost expErr error = nil
+//@     ghost named string = ""
+//@     before call (*commands.ExpandQuery).resolveUsersets args _, _, st, us, t, ts, c : assert st == store && us == usersets.GetChild() && t == tk && ts == typesys && c == consistency
+//@     after call (*commands.ExpandQuery).resolveUsersets returning n, e : expanded = true ; nodes = n ; expErr = e
+//@     before call commands.toObjectRelation args t : assert t == tk
+//@     after call commands.toObjectRelation returning s : named = s
+
+// difference node: base = expansion of the rewrite's base, subtract = expansion of its subtract (not swapped)
+//@ func (*ExpandQuery).resolveDifferenceUserset(q, ctx, store, userset, tk, typesys, consistency) (res, err)
+//@   property C30
+//@   option nosafety
+//@   ensures @node err == nil ==> res != nil && res.Name == named && typeIs(res.Value, "*openfgav1.UsersetTree_Node_Difference") && as(res.Value, "*openfgav1.UsersetTree_Node_Difference").Difference != nil && as(res.Value, "*openfgav1.UsersetTree_Node_Difference").Difference.Base == baseNode && as(res.Value, "*openfgav1.UsersetTree_Node_Difference").Difference.Subtract == subNode && expanded && expErr == nil
+//@   monitor children
+//@     ghost expanded = false
+//@     ghost baseNode *openfgav1.UsersetTree_Node = nil
+//@     ghost subNode *openfgav1.UsersetTree_Node = nil
+//@     ghost expErr error = nil
+//@     ghost named string = ""
+//@     before call (*commands.ExpandQuery).resolveUsersets args _, _, st, us, t, ts, c : assert st == store && len(us) == 2 && us[0] == userset.GetBase() && us[1] == userset.GetSubtract() && t == tk && ts == typesys && c == consistency
+//@     after call (*commands.ExpandQuery).resolveUsersets returning n, e : expanded = true ; expErr = e ; baseNode = n[0] ; subNode = n[1]
+//@     before call commands.toObjectRelation args t : assert t == tk
+//@     after call commands.toObjectRelation returning s : named = s
+
+// computed node: the rewrite's object#relation with the expanded object / relation filled in where it leaves them open
+//@ func (*ExpandQuery).resolveComputedUserset(q, ctx, userset, tk) (res, err)
+//@   property C30
+//@   option nosafety
+//@   ensures @node err == nil && res != nil && res.Name == tuple.ToObjectRelationString(tk.GetObject(), tk.GetRelation()) && typeIs(res.Value, "*openfgav1.UsersetTree_Node_Leaf") && typeIs(as(res.Value, "*openfgav1.UsersetTree_Node_Leaf").Leaf.Value, "*openfgav1.UsersetTree_Leaf_Computed") && as(as(res.Value, "*openfgav1.UsersetTree_Node_Leaf").Leaf.Value, "*openfgav1.UsersetTree_Leaf_Computed").Computed.Userset == tuple.ToObjectRelationString((userset.GetObject() == "" ? tk.GetObject() : userset.GetObject()), (userset.GetRelation() == "" ? tk.GetRelation() : userset.GetRelation()))
+
+// direct-assignment leaf: read exactly object#relation (any user) with the request's consistency, keep only tuples that
+// are valid for the model in use, list the users sorted
+//@ func (*ExpandQuery).resolveThis(q, ctx, store, tk, typesys, consistency) (res, err)
+//@   property C30
+//@   option nosafety
+//@   option defer_neutral
+//@   monitor leaf
+//@     ghost readIt iface = nil
+//@     ghost keyIt iface = nil
+//@     ghost validFilter ref = nil
+//@     ghost filterMade = false
+//@     ghost sorted = false
+//@     before call storage.RelationshipTupleReader.Read args _, _, st, f, o : assert st == store && f.Object == tk.GetObject() && f.Relation == tk.GetRelation() && f.User == tk.GetUser() && o.Consistency.Preference == consistency
+//@     after call storage.RelationshipTupleReader.Read returning it, e : readIt = it
+//@     before call storage.NewTupleKeyIteratorFromTupleIterator args it : assert it == readIt
+//@     after call storage.NewTupleKeyIteratorFromTupleIterator returning k : keyIt = k
+//@     before call validation.FilterInvalidTuples args ts : assert ts == typesys
+//@     after call validation.FilterInvalidTuples returning f : validFilter = f ; filterMade = true
+//@     before call storage.NewFilteredTupleKeyIterator args it, f : assert it == keyIt && filterMade && f == validFilter
+//@     after call slices.Sort args x : sorted = true
+
+// tuple-to-userset leaf: read the tupleset relation on the expanded object, keep only tuples valid for the model
+//@ func (*ExpandQuery).resolveTupleToUserset(q, ctx, store, userset, tk, typesys, consistency) (res, err)
+//@   property C30
+//@   option nosafety
+//@   option defer_neutral
+//@   monitor leaf
+//@     ghost readIt iface = nil
+//@     ghost keyIt iface = nil
+//@     ghost validFilter ref = nil
+//@     ghost filterMade = false
+//@     before call storage.RelationshipTupleReader.Read args _, _, st, f, o : assert st == store && f.Object == tk.GetObject() && f.Relation == (userset.GetTupleset().GetRelation() == "" ? tk.GetRelation() : userset.GetTupleset().GetRelation()) && f.User == "" && o.Consistency.Preference == consistency
+//@     after call storage.RelationshipTupleReader.Read returning it, e : readIt = it
+//@     before call storage.NewTupleKeyIteratorFromTupleIterator args it : assert it == readIt
+//@     after call storage.NewTupleKeyIteratorFromTupleIterator returning k : keyIt = k
+//@     before call validation.FilterInvalidTuples args ts : assert ts == typesys
+//@     after call validation.FilterInvalidTuples returning f : validFilter = f ; filterMade = true
+//@     before call storage.NewFilteredTupleKeyIterator args it, f : assert it == keyIt && filterMade && f == validFilter
+
+// every child is expanded by resolveUserset on the same store / key / model / consistency and lands at its own index
+//@ func (*ExpandQuery).resolveUsersets$1() (err)
+//@   property C30
+//@   option nosafety
+//@   monitor child
+//@     before call (*commands.ExpandQuery).resolveUserset args _, _, st, u, t, ts, c : assert st == deref(store) && u == deref(us) && t == deref(tk) && ts == deref(typesys) && c == deref(consistency)
